@@ -98,7 +98,14 @@ type HidRec struct {
 	W      time.Duration
 }
 
+// Handle is a named uintptr (a kind the flag sources and the decoders accept
+// and the string-casting path does not).
+type Handle uintptr
+
 func init() {
+	shape.RegisterBase("Handle", reflect.TypeOf(Handle(0)))
+	shape.RegisterBase("map[uintptr]string", reflect.TypeOf(map[uintptr]string(nil)))
+	shape.RegisterBase("map[Handle]int", reflect.TypeOf(map[Handle]int(nil)))
 	shape.RegisterBase("Small", reflect.TypeOf(Small{}))
 	shape.RegisterBase("EmbSlices", reflect.TypeOf(EmbSlices{}))
 	shape.RegisterBase("EmbSlicesTagged", reflect.TypeOf(EmbSlicesTagged{}))
